@@ -47,6 +47,8 @@ def generate(rng, tier, idx):
     tau = rng.choice(TAU_GRID) if rng.random() < 0.5 else round(rng.uniform(0.02, 0.8), 4)
     if fam == 'Frank' and rng.random() < 0.45:
         tau = -tau
+    if fam == 'Gumbel' and rng.random() < 0.08:
+        tau = 0.0                       # theta == 1: the closed lower edge of the Gumbel domain
     how = 'fit' if rng.random() < 0.3 else 'param'
     big = 40000 if tier == 'thorough' else 4000
     ops = []
@@ -59,6 +61,14 @@ def generate(rng, tier, idx):
         if fam != 'Clayton' and n == big and tier != 'thorough' and rng.random() < 0.5:
             n = 2000
         ops.append({'op': 'sample', 'n': n})
+    if rng.random() < 0.3:
+        # history: the same instance is re-parameterised in place (as the vine code does with
+        # ``copula.theta = ...``) and sampled again
+        t2 = rng.choice(TAU_GRID)
+        if fam == 'Frank' and rng.random() < 0.5:
+            t2 = -t2
+        ops.append({'op': 'reparam', 'tau': t2, 'how': rng.choice(['assign', 'compute'])})
+        ops.append({'op': 'sample', 'n': rng.choice([10, 500, 2000])})
     run = {'family': fam, 'tau': tau, 'how': how, 'seed': zoo.rand_seedspec(rng),
            'g0': rng.randrange(2**31), 'ops': ops}
     if how == 'fit':
@@ -75,6 +85,8 @@ def fixed_runs(tier):
         taus = [0.1, 0.5, 0.8] if tier != 'thorough' else TAU_GRID
         if fam == 'Frank':
             taus = taus + [-t for t in taus]
+        if fam == 'Gumbel':
+            taus = [0.0] + taus
         for t in taus:
             runs.append({'family': fam, 'tau': t, 'how': 'param',
                          'seed': {'kind': 'int', 'v': 5}, 'g0': 1,
@@ -227,6 +239,15 @@ def execute(run):
         elif op['op'] == 'app_reseed':
             np.random.seed(op['s'] % (2**32))
             ctx.faults['F5_foreign_reseed'] += 1
+        elif op['op'] == 'reparam':
+            model.tau = op['tau']
+            if op['how'] == 'compute':
+                model.theta = model.compute_theta()
+            else:
+                model.theta = refs.theta_of_tau(fam, op['tau'])
+            tb = '%+.1f' % (round(float(model.tau) * 5) / 5.0)
+            ctx.probes['reparameterised_in_place'] += 1
+            ctx.event('reparam', op['tau'], float(model.theta))
         elif op['op'] == 'sample':
             n = op['n']
             proto = _check_call(ctx, run, model, fam, n, subject)
